@@ -125,6 +125,13 @@ class HasTraitsGetattro(_Lookup):
             out.append(("post:governed-by-instance-then-class-then-prefix-trait", z3.And(g[1] == gov, g[2] == obj, g[3] == name)))
             out.append(("post:prefix-trait-only-after-plain-lookup-failed", z3.BoolVal(bool(prefix)) == z3.And(inst == NULL, cls == NULL)))
             out.append(("post:plain-python-lookup-only-without-explicit-trait", z3.Implies(z3.BoolVal(bool(generic)), z3.And(inst == NULL, cls == NULL))))
+        else:
+            # 'For any attribute name, reads ... are governed by ...': a read that no trait handler answered is either the stored
+            # value, a plain Python attribute found by the generic lookup, a name that is no str -- or the resolution of the
+            # governing (prefix) trait itself failed.  No name is refused on its spelling alone.
+            # (a plain attribute whose own descriptor raises something else than AttributeError propagates that error)
+            out.append(("post:no-read-is-refused-without-consulting-the-governing-trait", z3.Or(
+                ret != NULL, z3.Not(is_str), z3.BoolVal(bool(prefix)), z3.And(z3.BoolVal(bool(generic)), st.exc != EXC["AttributeError"]))))
         if st.own is not None:
             o = z3.Const("o!own", Obj)
             out.append(("own:reference-neutral", z3.ForAll([o], st.own[o] == info["own0"][o] + z3.If(z3.And(o == ret, ret != NULL, z3.Not(A.immortal(ret))), 1, 0)),
